@@ -96,6 +96,14 @@ def shard(shard_no, nshards, seed, tier, extra):
     d = common.Driver("rel", shim=False)
     corpus = sorted(glob.glob(os.path.join(common.VERIF, "corpus", "*.hex")))
     small = [p for p in corpus if os.path.getsize(p) < 8000]
+    contracts = common.corpus_codes(4000 if tier == "quick" else None)
+    for ci, (name, code) in enumerate(contracts):
+        if ci % nshards != shard_no:
+            continue
+        resp = d.call({"op": "analyze", "code": code.hex(), "stage": "analyze", "cfg": {"permissive": True},
+                       "wd": {"every": 100, "stop_at": 200000}}, timeout=600)
+        judge(res, code, {"real-contract"}, resp)
+        res.count("real_contracts")
     for i in range(n):
         r = rng.random()
         if r < 0.55:
